@@ -455,6 +455,12 @@ func (a *simAgg) add(r *proto.ProcResult) {
 		a.faults[k] += v
 	}
 	for k, v := range r.Probes {
+		if strings.HasSuffix(k, "_max") {
+			if v > a.probes[k] {
+				a.probes[k] = v
+			}
+			continue
+		}
 		a.probes[k] += v
 	}
 	for i, v := range r.TasksHist {
